@@ -21,7 +21,7 @@ def main():
                 repl.update(json.load(f)["Replace"]); i += 2
         else:
             raise SystemExit("bad arg " + args[i])
-    root = "/verif/harness"
+    root = os.path.join(os.environ.get("VERIF_ROOT", "/verif"), "harness")
     for d, _, files in os.walk(root):
         rel = os.path.relpath(d, root)
         for f in files:
